@@ -9,7 +9,6 @@ import (
 	"pgregory.net/rapid"
 
 	datatransfer "github.com/filecoin-project/go-data-transfer/v2"
-	"github.com/filecoin-project/go-data-transfer/v2/channels"
 
 	"verif/harness/dbl"
 	"verif/harness/gen"
@@ -83,8 +82,14 @@ var lifecycle = map[datatransfer.EventCode]bool{
 	datatransfer.CleanupComplete: true,
 }
 
-func isTerminal(s datatransfer.Status) bool { return channels.IsChannelTerminated(s) }
-func isCleanup(s datatransfer.Status) bool  { return channels.IsChannelCleaningUp(s) }
+// the terminal statuses and the statuses in which a channel is cleaning up, as the
+// properties name them (literal lists, not the library's predicates)
+func isTerminal(s datatransfer.Status) bool {
+	return s == datatransfer.Completed || s == datatransfer.Failed || s == datatransfer.Cancelled
+}
+func isCleanup(s datatransfer.Status) bool {
+	return s == datatransfer.Completing || s == datatransfer.Failing || s == datatransfer.Cancelling
+}
 
 func terminalOf(s datatransfer.Status) datatransfer.Status {
 	switch s {
